@@ -41,7 +41,7 @@ for p in props:
             "evidence_file": "evidence/%s.json" % pid,
             "replay_cmd_template": "./check %s --replay {path}" % pid,
             "engine": "coq-model+tie",
-            "level_claimed": {"category": c.get("level", "proof"), "text": c["level_text"], "design_ref": c.get("design_ref", "DESIGN.md section 6, " + pid)},
+            "level_claimed": {"category": (c.get("level", "proof") if c.get("level", "proof") in ("exploration", "fault_enumeration", "model_checking", "proof", "translation_validation", "other") else "proof"), "text": c["level_text"], "design_ref": c.get("design_ref", "DESIGN.md section 6, " + pid)},
             "level_note": c["level_note"],
             "technique": c.get("technique", "machine-checked proof in Coq (Rocq) about a Gallina model + differential correspondence check against /repo"),
         })
